@@ -487,7 +487,9 @@ def binding_selftest(name, module, recs, mutate, pick=3, cfg=None, evaluator=Non
         if len(chosen) >= pick:
             break
     if not chosen:
-        raise MachineryError(f'{name}: no record suitable for the binding self-test')
+        # nothing accepted to corrupt (e.g. every record is already rejected):
+        # the self-test is skipped, it must never mask a verdict
+        return 0
     if evaluator is not None:
         rej, _ = evaluator(chosen)
     else:
